@@ -194,6 +194,82 @@ def cache_stage(d, run, what, mcs, profiles, cmp, invs, mc_props=None):
     return hist
 
 
+def sim_stage(d, run, what, cmp, invs, nq=40, nt=400, flavors=("sync",)):
+    """Specification -> implementation: TLC simulates SIM_Cache.tla and prints each behaviour as a schedule; the harness
+    executes the schedules on the real cache; the recorded traces are validated like all others."""
+    wd = run.workdir
+    n = nt if _thorough(run) else nq
+    r = d.tlc("SIM_Cache.tla", "SIM_Cache.cfg", wd, workers=1, timeout=1200,
+              extra=["-simulate", "num=%d" % n, "-depth", "61", "-seed", str(run.seed)], heap="4g")
+    out = r["out"]
+    bad = re.findall(r"Invariant (\S+) is violated", out)
+    if bad:
+        run.violation("specification Cache.tla violates %s during simulation of SIM_Cache" % bad, replay_lines=[out[-8000:]])
+    seen, sched = set(), os.path.join(wd, "sched.ndjson")
+    with open(sched, "w") as f:
+        for line in out.splitlines():
+            m = re.match(r'<<"SCHED", "(.*)">>\s*$', line.strip())
+            if not m:
+                continue
+            js = m.group(1).encode().decode("unicode_escape")
+            if js in seen:
+                continue
+            try:
+                json.loads(js)
+            except Exception:
+                continue
+            seen.add(js)
+            f.write(js + "\n")
+    if not seen:
+        raise d.ToolError("TLC simulation produced no schedule")
+    m = re.findall(r"(\d+) states checked", out) or re.findall(r"(\d+) states generated", out)
+    gen = int(m[-1]) if m else 0
+    run.notes.setdefault("tlc_runs", []).append({"config": "SIM_Cache simulation (num=%d, depth 60): schedules for the real cache" % n,
+                                                  "states_generated": gen, "distinct_schedules": len(seen), "wall_s": round(r["wall"], 1)})
+    run.transitions += gen
+    cfg = _trace_cfg(run, "trace-sim", cmp, invs)
+    for fl in flavors:
+        trace = os.path.join(wd, "sim-%s.ndjson" % fl)
+        info = d.vh(["cache", "--sched", sched, "--flavor", fl, "--out", trace], timeout=1800)
+        files = d.split_trace(trace, os.path.join(wd, "chunks-sim-%s" % fl), start_events=("Init",), max_lines=1500)
+        res = d.validate_chunks("Cache_Trace.tla", cfg, files, wd, par=8, start_events=("Init",))
+        d.report_trace_results(run, res, "%s [TLC-generated schedules, %s]" % (what, fl))
+        run.traces += info.get("instances", 0)
+        run.evaluations += info.get("lines", 0)
+        run.notes["tlc_schedules_%s" % fl] = {k: info.get(k) for k in ("instances", "steps_executed", "steps_skipped", "hung")}
+    return len(seen)
+
+
+FREE_INV = {"FUsedIsSum": ["C01"], "FAgree": ["C06"], "FLen": ["C06"], "FIndexExact": ["C05"], "FReclaimed": ["C05"],
+            "FConservation": ["C08"], "FNeverTwice": ["C08"], "FMetrics": ["C17"], "FWorkersGone": ["C12"], "FOpsComplete": ["C12", "C20"]}
+
+
+def free_stage(d, run, what, combos):
+    """FREE-RUNNING runs: the real background loops (select! + ticker / async tasks + timer on several executors),
+    quiescent snapshots checked by Free_Trace.tla against the state predicates of Cache.tla."""
+    wd = run.workdir
+    for (flavor, ex, nq, nt) in combos:
+        n = nt if _thorough(run) else nq
+        trace = os.path.join(wd, "free-%s-%s.ndjson" % (flavor, ex))
+        info = d.vh(["free", "--flavor", flavor, "--exec", ex, "--n", n, "--seed", run.seed, "--out", trace], timeout=1800)
+        r = d.validate_trace("Free_Trace.tla", "Free_Trace.cfg", trace, wd)
+        if r["status"] == "accepted":
+            run.transitions += r["states"]
+        elif r["status"] in ("rejected", "invariant"):
+            lines = open(trace).read().splitlines(True)
+            bad = min(r.get("line", 1), len(lines))
+            st = max([i for i in range(bad) if '"ev":"FInit"' in lines[i]] or [0])
+            keep = lines[st:bad]
+            run.violation("%s [free-running %s/%s]: %s %s at recorded snapshot %s" % (
+                what, flavor, ex, r["status"], r.get("detail"), keep[-1][:300] if keep else ""), replay_lines=keep)
+        else:
+            d.log(str(r.get("detail"))[-1500:])
+            raise d.ToolError("free-running trace validation error")
+        run.traces += n
+        run.evaluations += info.get("lines", 0)
+        run.notes.setdefault("free_running", []).append({"flavor": flavor, "executor": ex, "instances": n, "snapshots": info.get("lines"), "stuck": info.get("stuck")})
+
+
 def _need(d, hist, names):
     for n in names:
         if hist.get(n, 0) == 0:
@@ -212,6 +288,8 @@ def c02(d, run):
                     ["conc", "seq"],
                     [("conc", "sync", 40, 300), ("conc_clear", "sync", 15, 150), ("seq", "sync", 15, 100), ("seq_veto", "sync", 10, 80), ("ttl", "sync", 10, 80)],
                     ["store", "out", "chan"], ["ResidentOwned", "NeverTwice", "NothingLost"])
+    sim_stage(d, run, "real cache deviates from Cache.tla (lookup results / resident values)", ["store", "out", "chan"],
+              ["ResidentOwned", "NeverTwice", "NothingLost"], 30, 300)
     _need(d, h, ["Get", "GetMut", "InsBegin", "RemStore", "PNewStore"])
     run.nontrivial = h.get("Get", 0) + h.get("GetMut", 0)
     run.rule = ("one evaluation = one recorded critical section of the real cache under the baton scheduler; non-trivial = "
@@ -225,6 +303,8 @@ def c06(d, run):
                     ["conc", "seq", "ttl"],
                     [("conc", "sync", 30, 300), ("evict", "sync", 25, 200), ("seq", "sync", 15, 150), ("ttl", "sync", 10, 80), ("conc_clear", "sync", 10, 100)],
                     ["store", "costs", "chan"], ["Agree", "UsedIsSum"])
+    sim_stage(d, run, "real cache deviates from Cache.tla (resident entries vs policy charges)", ["store", "costs", "chan"],
+              ["Agree", "UsedIsSum"], 30, 300)
     _need(d, h, ["PNewAdd", "PNewStore", "PDel", "PDelPolicy", "PVictim", "PCleanupKey", "End"])
     run.nontrivial = h.get("End", 0) + h.get("WaitRet", 0) + h.get("PWait", 0)
     run.rule = ("one evaluation = one recorded critical section; non-trivial = quiescent points reached (end of run after drain, "
@@ -238,6 +318,8 @@ def c08(d, run):
                     ["conc", "seq", "ttl"],
                     [("conc", "sync", 30, 300), ("evict", "sync", 25, 200), ("seq", "sync", 15, 150), ("seq_veto", "sync", 10, 60), ("ttl", "sync", 10, 80)],
                     ["store", "cbs", "chan", "costs"], ["Conservation", "NeverTwice", "NothingLost", "ResidentOwned"])
+    sim_stage(d, run, "real cache deviates from Cache.tla (callbacks / value conservation)", ["store", "cbs", "chan", "costs"],
+              ["Conservation", "NeverTwice", "NothingLost", "ResidentOwned"], 30, 300)
     _need(d, h, ["PNewStore", "PVictim", "PDelPolicy", "PCleanupDone", "RemStore"])
     run.nontrivial = sum(h.get(k, 0) for k in ("PVictim", "PDelPolicy", "PCleanupDone", "RemStore", "PCleanItem"))
     run.rule = ("one evaluation = one recorded critical section, with the callbacks (kind, value id, cost) fired inside it; "
@@ -261,6 +343,8 @@ def c10(d, run):
                     ["life", "conc"],
                     [("life", "sync", 40, 300), ("conc_clear", "sync", 25, 150), ("conc", "sync", 15, 100)],
                     ["chan", "out", "store", "costs"], ["NoOrphan", "Agree"])
+    sim_stage(d, run, "real cache deviates from Cache.tla (wait barrier / termination)", ["chan", "out", "store", "costs"],
+              ["NoOrphan", "Agree"], 40, 400)
     _need(d, h, ["WaitSend", "WaitBlock", "PWait", "PCleanItem", "PStop"])
     run.nontrivial = h.get("WaitSend", 0)
     run.rule = ("non-trivial = wait() calls; each must return exactly when the specification releases its marker, with the "
@@ -276,6 +360,10 @@ def c12(d, run):
                     ["life"],
                     [("life", "sync", 50, 400)],
                     ["life", "out", "chan", "store"], ["NoOrphan"])
+    sim_stage(d, run, "real cache deviates from Cache.tla (close protocol)", ["life", "out", "chan", "store"], ["NoOrphan"], 40, 400,
+              flavors=("sync", "async"))
+    free_stage(d, run, "the real background loops violate a state predicate of Cache.tla (worker termination)",
+               [("sync", "thread", 4, 24), ("async", "thread", 4, 24)])
     _need(d, h, ["ClsStopSend", "PStop", "LStop", "ClsFlag", "ClsStopFail"])
     run.nontrivial = h.get("ClrSend", 0)
     run.rule = ("non-trivial = close()/clear() calls racing other operations; every result after close, every blocking point "
@@ -343,6 +431,8 @@ def c05(d, run):
                     ["ttl"],
                     [("ttl", "sync", 30, 300), ("ttl_fine", "sync", 20, 150), ("ttl_conc", "sync", 25, 200), ("ttl", "async", 10, 80)],
                     ["store", "em", "costs", "cbs", "chan"], ["IndexExact", "Agree", "UsedIsSum", "NeverTwice", "Conservation"])
+    free_stage(d, run, "the real background loops violate a state predicate of Cache.tla (bounded reclaim delay, exact index)",
+               [("sync", "thread", 4, 32), ("async", "thread", 4, 32)])
     _need(d, h, ["PTick", "PCleanupKey", "PCleanupDone", "Advance", "InsBegin"])
     run.nontrivial = h.get("PCleanupKey", 0)
     run.rule = ("non-trivial = keys handled by a cleanup sweep; after every section the expiration buckets, resident entries, "
@@ -367,6 +457,8 @@ def c11(d, run):
                     ["conc", "ttl", "seq"],
                     [("conc_clear", "sync", 40, 300), ("ttl_clear", "sync", 20, 150), ("seq", "sync", 10, 80), ("conc_clear", "async", 10, 80)],
                     ALL_CMP, ["IndexExact", "Agree", "UsedIsSum", "MetricsLaws", "ResidentOwned", "ClearEmpties"])
+    sim_stage(d, run, "real cache deviates from Cache.tla (clear)", ALL_CMP,
+              ["IndexExact", "Agree", "UsedIsSum", "MetricsLaws", "ResidentOwned", "ClearEmpties"], 30, 300, flavors=("sync", "async"))
     _need(d, h, ["ClrSend", "ClrStore", "ClrMetrics", "PClrTake", "PCleanItem"])
     run.nontrivial = h.get("ClrSend", 0)
     run.rule = ("non-trivial = clear() calls with 0..buffer-size items pending, the processor and a second client interleaved at every "
@@ -474,6 +566,9 @@ def c19(d, run):
                     [("seq", "async", 8, 120), ("conc", "async", 15, 200), ("conc_clear", "async", 10, 120), ("life", "async", 15, 200),
                      ("ttl", "async", 6, 80), ("evict", "async", 10, 120), ("ttl_conc", "async", 6, 80)],
                     ALL_CMP, ALL_INV)
+    sim_stage(d, run, "real AsyncCache deviates from Cache.tla", ALL_CMP, ALL_INV, 30, 300, flavors=("async",))
+    free_stage(d, run, "AsyncCache's real background tasks violate a state predicate of Cache.tla",
+               [("async", "thread", 4, 24), ("async", "pool", 4, 24), ("async", "local", 4, 24), ("sync", "thread", 4, 8)])
     _need(d, h, ["RemSendA", "RemRet", "PStop", "LStop", "ClsStopSend", "PCleanupKey", "PVictim"])
     # same sequential histories on both flavours: observable results must be identical
     pairs = 0
@@ -521,6 +616,8 @@ def c20(d, run):
                     [],
                     [("cfg", "sync", 70, 560), ("cfg", "async", 35, 280)],
                     ALL_CMP, ALL_INV)
+    free_stage(d, run, "a cache built from an accepted configuration does not complete its operations (real loops, tiny cleanup intervals included)",
+               [("sync", "thread", 8, 40), ("async", "thread", 4, 24)])
     _need(d, h, ["Finalize", "LRecv", "PVictim", "PCleanupKey", "Get"])
     run.nontrivial = h.get("Init", 0)
     run.rule = ("one instance per configuration: num_counters 1..70 in turn (quick: once each for sync, every second one for async), "
